@@ -264,13 +264,17 @@ func genC12Case(t *simrt.Tape) *c12case {
 		m := t.Choose(K, nm)
 		noMapping := t.Bool(K, 12)
 		var addr uint64
-		switch t.Choose(K, 6) {
+		switch t.Choose(K, 8) {
 		case 0:
 			addr = maps[m].start
 		case 1:
 			addr = maps[m].start + 0x100000 - 1
 		case 2:
 			addr = 0
+		case 3, 4:
+			// The same address in several mappings (profiles of two processes
+			// merged, overlapping or fake mappings): answers are keyed by address.
+			addr = 0x401000 + uint64(0x10*t.Choose(K, 2))
 		default:
 			addr = maps[m].start + uint64(0x100+0x10*i)
 		}
